@@ -43,6 +43,24 @@ PROPS = {
         ],
         trusted=STD_TRUST,
     ),
+    "C07": dict(
+        units=["print"],
+        level="proof",
+        min_obligations=60,
+        replay_family="c07",
+        explanation="print.rs is extracted from /repo and verified against a sink model of std::io::Write in which every `write` call may accept "
+                    "ANY number n <= len of bytes (all short-write schedules at once) and `write_all` delivers everything or fails having delivered a prefix. "
+                    "Every Formatter method (default bodies verified once per implementor, DefaultFormatter at the default option set, CustomizedFormatter for "
+                    "all option sets symbolically), the number visitor, the byte-vector element closures, the char/string escape writers carry "
+                    "emits(r, sunk_before, sunk_after, txt_X(options, arg)): Ok => exactly the text, Err => a prefix of it.",
+        assumptions=[
+            "std::io::Write contract as documented (sink model inc/sink.vrs); itoa/ryu output are uninterpreted texts dec_int / ryu_text",
+            "write!(w, \"LIT{:x}\", n) is replaced by an assumed all-or-prefix emitter of LIT ++ lower_hex(n) (rule R8)",
+            "the Formatter trait header is restated (split into FormatterBase/Formatter to avoid a Verus trait cycle); default method bodies are verified per implementor",
+            "write_scheme_vector / Number::visit are verified at the instantiations used by print.rs with the literal closures defunctionalised (R10)",
+        ],
+        trusted=STD_TRUST,
+    ),
 }
 
 
